@@ -549,9 +549,14 @@ func runConsume(cs Case, content []byte, ch *choice.Chooser) verdict {
 				other[i] = ^b
 			}
 			d2 := k.mk(nil)
-			_, pan2 := call(func() error { return cons.Consume(bytes.NewReader(other), d2.data) })
+			err2, pan2 := call(func() error { return cons.Consume(bytes.NewReader(other), d2.data) })
 			if pan2 != "" {
 				v.class, v.what = "panic", fmt.Sprintf("second Consume into %s panicked: %s", k.name, pan2)
+				return v
+			}
+			// the same consumer value used again must behave as a fresh one does
+			if got2 := d2.get(); err2 != nil || !bytes.Equal(got2, other) {
+				v.class, v.what = "second-call-differs", fmt.Sprintf("the same %s consumer used a second time (fresh destination %s, fault-free stream %s): err=%v stored %s", cs.Codec, k.name, q(other), err2, q(got2))
 				return v
 			}
 			if again := d.get(); !bytes.Equal(again, content) {
@@ -701,6 +706,24 @@ func runProduce(cs Case, content []byte, ch *choice.Chooser) verdict {
 		if s.intact != nil && !s.intact() {
 			v.class, v.what = "source-modified", fmt.Sprintf("%s producer modified the source %s", cs.Codec, k.name)
 			return v
+		}
+		// the same producer value used again must behave as a fresh one does
+		if len(content) > 0 {
+			other := make([]byte, len(content))
+			for i, b := range content {
+				other[i] = ^b
+			}
+			s2 := k.mk(nil, other, 0)
+			var out2 bytes.Buffer
+			err2, pan2 := call(func() error { return prod.Produce(&out2, s2.data) })
+			if pan2 != "" || err2 != nil || !bytes.Equal(out2.Bytes(), other) {
+				v.class, v.what = "second-call-differs", fmt.Sprintf("the same %s producer used a second time (source %s %s, bytes.Buffer): panic=%q err=%v wrote %s", cs.Codec, k.name, q(other), pan2, err2, q(out2.Bytes()))
+				return v
+			}
+			if !bytes.Equal(w.Buf, s.expect) {
+				v.class, v.what = "written-bytes-aliased", fmt.Sprintf("bytes received by the first writer changed to %s after the second Produce", q(w.Buf))
+				return v
+			}
 		}
 		v.outcome = tag + "written-exactly"
 	default:
